@@ -77,6 +77,19 @@ CLAIMED = {
         "technique": "Lean 4 proof (mutual structural induction over the nested tree; impl search = erase-by-identity "
                      "spec) + differential correspondence on real Element objects",
     },
+    "C09": {
+        "text": "Lean theorem classification_table: for EVERY status (unbounded), body class and option setting the "
+                "code's chain of tests (over the status sets GENERATED from process_reply) equals the documented "
+                "table, which depends on the status only through its class {202/204, 200-or-none, 500, other}; "
+                "corollaries: a fault is never returned as a value; 202/204 always None. The model is tied to "
+                "_SoapClient.process_reply/send/_SimClient/RequestContext by enumerating the full product the "
+                "property names (13 statuses x 7 bodies x faults x retxml x 4 delivery paths x 3 binding styles = 3840 "
+                "cells) on the real client in both tiers and comparing outcome class and payload with model and table.",
+        "design_ref": "DESIGN.md section 6 C09",
+        "note": "body classes are represented by one document each; XML well-formedness is expat's judgement.",
+        "technique": "Lean 4 proof (decision table by case analysis over an unbounded status) + generated status sets "
+                     "+ exhaustive correspondence",
+    },
 }
 
 NOT_YET = "check not built yet in this round (design in DESIGN.md section 6); not claimed"
